@@ -17,8 +17,10 @@ AmountMut(a) == {"amt:" \o ToString(b) : b \in Amounts \ {a}} \cup {"amt:3", "am
 KeysetMut(k) == {"ks:" \o x : x \in Keysets \ {k}} \cup {"ksunknown", "ksnothex"}
 CMut == {"cflipx", "cflippar", "c:other", "c:othersameamt", "cgarbage", "cnothex", "coffcurve", "cempty"}
 SecretMut == {"secedit"}
-Honest == {"", "dleq", "len512", "len512mb"}   \* must be accepted (len512: a 512 byte secret; mb: made of two-byte characters)
-Oversize == {"len513", "len514mb"}              \* 513 bytes / 514 bytes in 265 characters: signed by the mint, unspendable
+Honest == {"", "dleq", "len512", "len512mb", "p2pk512"}   \* must be accepted (len512: a 512 byte secret; mb: made of two-byte characters;
+                                                          \* p2pk512: a well-formed P2PK secret of 512 bytes, spent with its signature)
+Oversize == {"len513", "len514mb", "p2pk513"}   \* 513 bytes / 514 bytes in 265 characters / a P2PK secret of 513 bytes with a valid
+                                                \* witness: signed by the mint, unspendable
 
 Mutations(k, a) == AmountMut(a) \cup KeysetMut(k) \cup CMut \cup SecretMut \cup Honest \cup Oversize
 
